@@ -85,9 +85,9 @@ func addImports(src, repl string) string {
 
 type c09Sub struct {
 	file     int
-	from, to int    // byte range in the file
+	from, to int // byte range in the file
 	repl     string
-	quoted   bool   // from a message (not a machine fix)
+	quoted   bool // from a message (not a machine fix)
 	origText string
 }
 
@@ -268,6 +268,11 @@ func c09(args []string) int {
 			}
 			var subs []c09Sub
 			if d.HasFix && d.FixInFile {
+				if d.Offset < d.From || d.Offset >= d.To && d.To > d.From {
+					ev.Violate(evidence.Violation{Key: d.Checker + "|fix-range-does-not-cover-the-diagnosed-code", What: d.Checker + ": the fix of a diagnostic edits a range that does not contain the diagnosed position (it changes unrelated code and leaves the diagnosed code as it is)",
+						Observed: d.String() + fmt.Sprintf("\ndiagnostic at offset %d, fix range [%d,%d)", d.Offset, d.From, d.To), Replay: progReplay(p, d.Checker)})
+					continue
+				}
 				subs = append(subs, c09Sub{file: fi, from: d.From, to: d.To, repl: d.Repl})
 				mu.Lock()
 				fixes++
